@@ -16,7 +16,7 @@ from collections import Counter, defaultdict
 import common
 from common import BUILD, COQ, VERIF, Infra, SplitMix, Lock, repo_hash, verif_hash, run
 
-NSCHED = 62
+NSCHED = 67
 TARGET_SCHED = os.path.join(BUILD, "target_sched")
 FAMILY_JSON = os.path.join(BUILD, "sched_family.json")
 HS = os.path.join(VERIF, "harness_sched")
@@ -304,6 +304,10 @@ def oracle(case, ob, sched):
         if begun[t] != 1:
             fails.append(("C07", "task %d ran %d times" % (t, begun[t])))
     if ob.get("accs") != ob.get("refaccs") or ob.get("final") != ob.get("ref"):
+        if any(t_.get("par") for t_ in sched):
+            fails.append(("C09", "a schedule with a parallel system ends in a state different from the one its tasks produce one by one "
+                                 "(the outcome of a parallel system must equal that of its sequential counterpart): final %s vs %s"
+                          % (ob.get("final"), ob.get("ref"))))
         fails.append(("C07", "result differs from the sequential run: accs %s vs %s; final %s vs %s"
                       % (ob.get("accs"), ob.get("refaccs"), ob.get("final"), ob.get("ref"))))
     # C15: what the systems' resource views left behind is what the sequential run leaves
